@@ -343,7 +343,7 @@ func (l c06) Exec(env *core.Env) *core.Result {
 				res.Probe("second_signature_verified")
 			}
 			config := fmt.Sprintf("%s sig=%d expiryAction=%s entry=%d", config, inst.which, expiryAction, w["entry"])
-			outcome, verr := verifyEntry(ctx, v, w["entry"], desc, sig, format)
+			outcome, verr := verifyEntry(ctx, v, entryOf(w), desc, sig, format)
 			var exp, ts *notation.ValidationResult
 			if outcome != nil {
 				for _, r := range outcome.VerificationResults {
